@@ -2,6 +2,7 @@
 Struct / Union validators of stone_validators.py (C08, C04, C06, C13)."""
 from pyvc.contract import contract, Ret, Raise, Obj, AnyVal, Lit, OneOf, implies
 import spec.runtime as S
+import spec.gen as G
 import stone.backends.python_rsrc.stone_validators as bv
 import stone.backends.python_rsrc.stone_base as bb
 import stone.backends.python_rsrc.stone_serializers as SS
@@ -148,7 +149,7 @@ class Attribute_set:
 
     def ensures(self, instance, value, result, exc):
         return exc is not None or (
-            getattr(instance, self.name) is S.stored_value(self, value))
+            S.same(getattr(instance, self.name), S.stored_value(self, value)))
 
 
 @contract(MB + 'Attribute.__delete__', properties=['C08'])
@@ -218,3 +219,27 @@ class Union_get_val_data_type:
         if tag in cls._tagmap:
             return Ret(cls._tagmap[tag])
         return Raise(KeyError)
+
+Struct_validate_type_only.gen = staticmethod(G.gvalidate_case((bv.Struct,)))
+
+Struct_validate_fields_only.gen = staticmethod(G.gvalidate_case((bv.Struct,)))
+
+Struct_validate.gen = staticmethod(G.gvalidate_case((bv.Struct,)))
+
+Struct_has_default.gen = staticmethod(G.struct_default_case)
+
+Union_validate_type_only.gen = staticmethod(G.gvalidate_case((bv.Union,)))
+
+Union_validate.gen = staticmethod(G.gvalidate_case((bv.Union,)))
+
+Attribute_get.gen = staticmethod(G.attribute_case('get'))
+
+Attribute_set.gen = staticmethod(G.attribute_case('set'))
+
+Attribute_delete.gen = staticmethod(G.attribute_case('del'))
+
+Union_init.gen = staticmethod(G.union_init_case)
+
+Union_is_tag_present.gen = staticmethod(G.union_tag_case)
+
+Union_get_val_data_type.gen = staticmethod(G.union_tag_case)
